@@ -21,12 +21,18 @@ def spec(rng, tcp_ok=False):
     return ",".join(items)
 
 
+RETRYING = [lambda rng, t: "rcode=" + rng.choice(["SERVFAIL", "NOTIMP", "REFUSED"]),
+            lambda rng, t: "rcode=FORMERR,noopt=1",
+            lambda rng, t: "rcode=FORMERR",
+            lambda rng, t: ("tc=1" if t else "rcode=SERVFAIL")]
+
+
 def csv(n):
     return ",".join("10.0.0.%d:53" % (i + 1) for i in range(n)) if n else "-"
 
 
 def gen_case(rng, tier):
-    S = rng.choice([1, 1, 2, 2, 3, 4])
+    S = rng.choice([1, 1, 2, 2, 3, 3, 4])
     T = rng.choice([1, 2, 2, 3, 4])
     M = rng.choice([50, 100, 250])
     flags = []
@@ -62,10 +68,25 @@ def gen_case(rng, tier):
             ops.append("adv %d" % rng.choice([M, M, M - 1, M // 2, 2 * M, 1]))
             ops.append("proc")
         elif r < 0.55:
-            which = rng.choice(["xl", "xl", "xl-1", "xl-2", "xl-3", "x0", "x1", "xl-5"])
-            ops.append("rsp %s %s" % (which, spec(rng, tcp_ok)))
-            if rng.random() < 0.3:
-                ops.append("rsp %s %s" % (rng.choice(["xl", "xl-1", "x0"]), spec(rng, tcp_ok)))
+            # ONE read batch: several messages queued before a single proc - retry-triggering
+            # replies, duplicates, answers and messages that do not parse, in every order
+            c = rng.random()
+            if c < 0.3:
+                # a re-send is pending in the requeue array when the walk hits garbage
+                which = rng.choice(["xl", "xl", "xl-1", "x0"])
+                ops.append("rsp %s %s" % (which, rng.choice(RETRYING)(rng, tcp_ok)))
+                for _ in range(rng.choice([0, 0, 1, 2])):
+                    ops.append("rsp %s %s" % (rng.choice([which, "xl", "xl-1"]), spec(rng, tcp_ok)))
+                ops.append("rsp %s rcode=NOERROR,trunc=%d" % (which, rng.choice([5, 11, 14])))
+                if rng.random() < 0.3:
+                    ops.append("rsp %s %s" % (which, spec(rng, tcp_ok)))
+            else:
+                for _ in range(rng.choice([1, 1, 2, 3, 4, 5])):
+                    which = rng.choice(["xl", "xl", "xl-1", "xl-2", "xl-3", "x0", "x1", "xl-5"])
+                    sp = spec(rng, tcp_ok)
+                    if rng.random() < 0.12:
+                        sp += ",trunc=%d" % rng.choice([5, 11, 14])
+                    ops.append("rsp %s %s" % (which, sp))
             ops.append("proc")
         elif r < 0.7:
             ops.append("rspall %s" % spec(rng, tcp_ok))
